@@ -24,12 +24,13 @@ FLOORS = {'quick': {'events_observed': 5000, 'liveness_evaluations': 50, 'messag
                     'events_about_a_process_known_to_peers_only': 300, 'fuzz_runs_with_pattern_formulas': 40,
                     'numprocs_requests_served': 60, 'groups_removed': 30, 'groups_added_again': 5,
                     'programs_disabled_at_run_time': 30, 'configuration_requests_answered': 150,
-                    'groups_added_again_after_a_refused_numprocs_change': 5},
+                    'groups_added_again_after_a_refused_numprocs_change': 5, 'numprocs_decreased_during_a_stop': 40},
           'thorough': {'events_observed': 50000, 'liveness_evaluations': 500, 'messages_injected': 60000,
                        'events_about_a_process_known_to_peers_only': 6000, 'fuzz_runs_with_pattern_formulas': 800,
                        'numprocs_requests_served': 1200, 'groups_removed': 700, 'groups_added_again': 120,
                        'programs_disabled_at_run_time': 700, 'configuration_requests_answered': 3000,
-                       'groups_added_again_after_a_refused_numprocs_change': 100}}
+                       'groups_added_again_after_a_refused_numprocs_change': 100,
+                       'numprocs_decreased_during_a_stop': 500}}
 COUNT = {'quick': 320, 'thorough': 6000}
 BUDGET_S = {'quick': 50, 'thorough': 520}
 
@@ -57,11 +58,21 @@ DYN_KNOBS = {'n_min': 1, 'n_max': 4, 'publisher': True,
              'behaviours': ['normal'] * 6 + ['slow_stop', 'stubborn', 'crash_early', 'exit_unexpected'],
              'actions': ['update_numprocs'] * 4 + ['enable', 'disable', 'disable', 'remove_group', 'remove_group',
                                                    'add_group', 'add_group', 'refused_numprocs_then_group_added_again',
+                                                   'stop_then_decrease', 'stop_then_decrease',
                                                    'start_application', 'stop_application',
                                                    'restart_application', 'start_process', 'stop_process',
                                                    'restart_sequence', 'kill_process', 'restart', 'burst'],
              'gaps': [0.0, 0.05, 0.5, 2.0, 5.0, 12.0],
              'n_actions': [2, 3, 4, 6, 8, 12], 'early_p': 0.1}
+
+
+# (d') numprocs decreased on the hosts while the application is being stopped level by level (slow stops)
+DECREASE_KNOBS = {'n_min': 2, 'n_max': 3, 'publisher': True,
+                  'apps': {'n_apps': (1, 2), 'n_progs': (2, 4), 'seq_max': 3, 'allow_wait_exit': False,
+                           'max_numprocs': 3, 'startsecs': (0, 2), 'stopwaitsecs': (4, 10), 'per_instance_diff': 0.0,
+                           'managed_p': 1.0, 'autorestart': ('false',)},
+                  'behaviours': ['slow_stop', 'slow_stop', 'stubborn', 'normal'],
+                  'actions': ['stop_then_decrease'], 'gaps': [8.0, 15.0], 'n_actions': [1, 2], 'early_p': 0.0}
 
 
 FUZZ_KNOBS = {'n_steps': [60, 100, 160], 'unknown_process_p': 0.15, 'formula_rules_p': 0.6, 'extra_process_p': 0.25}
@@ -74,6 +85,7 @@ def plan(tier, seed):
              for i in range(COUNT[tier])]
     cases += [{'seed': seed * 1000003 + 700000 + i, 'family': 'fuzz'} for i in range(COUNT[tier] // 2)]
     cases += [{'seed': seed * 1000003 + 600000 + i, 'family': 'dynconf'} for i in range(COUNT[tier] // 2)]
+    cases += [{'seed': seed * 1000003 + 500000 + i, 'family': 'decrease-during-stop'} for i in range(COUNT[tier] // 4)]
     return cases
 
 
@@ -89,12 +101,12 @@ def run_case(case):
         run = AppsRun(case, APPS_KNOBS, [mon])
         violations = run.execute()
         nontrivial = bool(run.actions)
-    elif family == 'dynconf':
+    elif family in ('dynconf', 'decrease-during-stop'):
         from workloads.apps import Run as AppsRun
-        run = AppsRun(case, DYN_KNOBS, [mon, DynConfMonitor()])
+        run = AppsRun(case, DYN_KNOBS if family == 'dynconf' else DECREASE_KNOBS, [mon, DynConfMonitor()])
         violations = run.execute()
         nontrivial = any(a['kind'] in ('update_numprocs', 'enable', 'disable', 'remove_group', 'add_group',
-                                       'refused_numprocs_then_group_added_again')
+                                       'refused_numprocs_then_group_added_again', 'stop_then_decrease')
                          and a.get('res') for a in run.actions)
     else:
         from workloads.isolation_fuzz import FuzzRun
